@@ -319,6 +319,10 @@ func c15Stored(e *Env, c *C15Case, base []byte) {
 		} else {
 			// pages are read lazily: damage the bytes under an open handle
 			g.what = "file damaged while a handle is open"
+			if int64(len(base)) > g.input {
+				// the handle was opened on the undamaged file: that is its input
+				g.input = int64(len(base))
+			}
 			os.WriteFile(p, base, 0o644)
 			var err error
 			db, err = wt.Open(p, wt.WithoutFlock())
